@@ -154,6 +154,9 @@ func (g *G) spell(p string) string {
 }
 
 func relTo(cwd, p string) (string, bool) {
+	if !strings.HasPrefix(cwd, "/") {
+		return "", false // not an absolute directory (e.g. a view whose Getwd is not a Unix path): keep p absolute
+	}
 	if cwd == "/" {
 		if p == "/" {
 			return ".", true
